@@ -753,6 +753,22 @@ func (u *Unit) evalSpecCall(env *SpecEnv, c *ECall) Value {
 			}
 		}
 	}
+	// a real function declared `function` (pure, deterministic): uninterpreted application
+	if fn := u.V.repoFuncByShortName(u.Pkg, name); fn != nil {
+		if fc := u.V.contractFor(fn); fc != nil && fc.Function {
+			var args []Value
+			for i := range c.Args {
+				args = append(args, arg(i))
+			}
+			st := env.s
+			if env.useOld {
+				st = &State{Heaps: env.heaps(), Entry: &snapshot{Heaps: env.heaps(), Alloc: env.s.Entry.Alloc}, Alloc: env.s.Alloc}
+			}
+			if ft := u.functionApp(st, fn, args, 0); ft != nil {
+				return Value{T: ft, Ty: fn.Signature.Results().At(0).Type()}
+			}
+		}
+	}
 	// spec function?
 	if env.cf != nil {
 		if sf, dcf := u.V.specFuncIn(env.cf, name); sf != nil {
